@@ -359,3 +359,97 @@ def _as_load(e: ast.expr) -> ast.expr:
         if hasattr(x, "ctx"):
             x.ctx = ast.Load()
     return e
+
+
+# ---------------------------------------------------------------------------
+# attribute aliases:  bhe = self.ghe.bhe ; ... bhe.b.H ...   is read as   self.ghe.bhe.b.H
+# ---------------------------------------------------------------------------
+def _chain_text(node) -> Optional[str]:
+    parts = []
+    while isinstance(node, ast.Attribute):
+        parts.append(node.attr)
+        node = node.value
+    if isinstance(node, ast.Name):
+        parts.append(node.id)
+        return ".".join(reversed(parts))
+    return None
+
+
+def propagate_attribute_aliases(trees: Dict[str, ast.Module]) -> int:
+    """a local that is bound ONCE, at the top level of a function, to an attribute chain (al = self.x.y) and is only read
+    afterwards stands for that chain as long as nothing can rebind the chain: the function stores to no prefix of it, does
+    not rebind its root, and - when the first attribute is one that some method outside a constructor assigns - calls nothing
+    on the root object.  Reads of the local are replaced by the chain, so that rules which recognise `self.x.y.z` by its
+    spelling see the same thing whether or not a refactor introduced the local.  Returns the number of aliases resolved."""
+    rebindable = set()
+    for t in trees.values():
+        for cls in [b for b in t.body if isinstance(b, ast.ClassDef)]:
+            for m in cls.body:
+                if isinstance(m, ast.FunctionDef) and m.name != "__init__":
+                    for x in ast.walk(m):
+                        if isinstance(x, ast.Attribute) and isinstance(x.ctx, (ast.Store, ast.Del)) and isinstance(x.value, ast.Name) and x.value.id == "self":
+                            rebindable.add(x.attr)
+    done = 0
+
+    def do_function(fn: ast.FunctionDef):
+        nonlocal done
+        stores = {}
+        for x in ast.walk(fn):
+            if isinstance(x, ast.Name) and isinstance(x.ctx, (ast.Store, ast.Del)):
+                stores[x.id] = stores.get(x.id, 0) + 1
+            elif isinstance(x, ast.arg):
+                stores[x.arg] = stores.get(x.arg, 0) + 1
+            elif isinstance(x, (ast.Global, ast.Nonlocal)):
+                for n_ in x.names:
+                    stores[n_] = stores.get(n_, 0) + 2
+        attr_stores = set()
+        for x in ast.walk(fn):
+            if isinstance(x, ast.Attribute) and isinstance(x.ctx, (ast.Store, ast.Del)):
+                c = _chain_text(x)
+                if c:
+                    attr_stores.add(c)
+        nested = [x for x in ast.walk(fn) if x is not fn and isinstance(x, (ast.FunctionDef, ast.Lambda))]
+        for s in list(fn.body):
+            if not (isinstance(s, ast.Assign) and len(s.targets) == 1 and isinstance(s.targets[0], ast.Name) and isinstance(s.value, ast.Attribute)):
+                continue
+            a = s.targets[0].id
+            chain = _chain_text(s.value)
+            if chain is None or stores.get(a, 0) != 1:
+                continue
+            parts = chain.split(".")
+            root = parts[0]
+            if stores.get(root, 0) > (1 if root in [x.arg for x in fn.args.args + fn.args.kwonlyargs] else 0):
+                continue
+            prefixes = {".".join(parts[:k]) for k in range(2, len(parts) + 1)}
+            if prefixes & attr_stores:
+                continue
+            if parts[1] in rebindable:
+                calls_root = any(isinstance(x, ast.Call) and ((isinstance(x.func, ast.Attribute) and isinstance(x.func.value, ast.Name) and x.func.value.id == root)
+                                                               or any(isinstance(g, ast.Name) and g.id == root for g in x.args)) for x in ast.walk(fn))
+                if calls_root:
+                    continue
+            if any(isinstance(y, ast.Name) and y.id == a for nf in nested for y in ast.walk(nf)):
+                continue  # captured by a closure: leave it
+            line = s.lineno
+            uses = [x for x in ast.walk(fn) if isinstance(x, ast.Name) and x.id == a and isinstance(x.ctx, ast.Load)]
+            if not uses or any(getattr(u, "lineno", 0) < line for u in uses):
+                continue
+
+            class R(ast.NodeTransformer):
+                def visit_Name(self, n):
+                    if n.id == a and isinstance(n.ctx, ast.Load):
+                        return ast.copy_location(copy.deepcopy(s.value), n)
+                    return n
+
+            for k, st_ in enumerate(fn.body):
+                if st_ is not s:
+                    fn.body[k] = R().visit(st_)
+            for x in ast.walk(fn):
+                ast.fix_missing_locations(x) if isinstance(x, ast.stmt) else None
+            done += 1
+
+    for t in trees.values():
+        for x in ast.walk(t):
+            if isinstance(x, ast.FunctionDef):
+                do_function(x)
+    return done
